@@ -618,6 +618,9 @@ func (m *Model) DeliverTx(t *TxInfo) {
 		r := m.rwd(t.From)
 		if t.ReqAmt.Cmp(r.Withdrawable()) > 0 {
 			m.find("C13", "withdraw-above-claim", site, "withdrawal of %s succeeded, withdrawable is %s", t.ReqAmt, r.Withdrawable())
+			// the same event seen from the value side: only ISSUED rewards may be minted by a withdrawal (C02's
+			// "rewards withdrawn so far"); anything above is value created out of nothing
+			m.find("C02", "minted-above-issued-rewards", site, "withdrawal of %s succeeded, only %s of issued reward is left to withdraw", t.ReqAmt, r.Withdrawable())
 		}
 		r.Withdrawn.Add(r.Withdrawn, t.ReqAmt)
 		if m.RwdAlt[t.From] == nil {
